@@ -177,6 +177,30 @@ fn chardata(case: &Value) -> Value {
     let offset = case["offset"].as_u64().unwrap_or(0) as usize;
     let count = case["count"].as_u64().unwrap_or(0) as usize;
     let arg = case["arg"].as_str().unwrap_or("");
+    if kind == "expanded" {
+        // merged-text view: text followed by a CDATA section under <r>, read as one node
+        let h = content.chars().count() / 2;
+        let t: String = content.chars().take(h).collect();
+        let c: String = content.chars().skip(h).collect();
+        let src = format!("<r>{}<![CDATA[{}]]></r>", t, c);
+        let ctx = xml_dom::Context::from_text_expanded(true);
+        return match xml_dom::XmlDocument::from_raw_with_context(src.as_str(), ctx) {
+            Ok((_, d)) => {
+                let root = d.document_element().unwrap();
+                match root.child_nodes().iter().next() {
+                    Some(xml_dom::XmlNode::ExpandedText(n)) => match method {
+                        "length" => json!({"ok": true, "value": n.length(), "data": n.data().unwrap_or_default()}),
+                        _ => match n.substring_data(offset, count) {
+                            Ok(v) => json!({"ok": true, "value": v, "data": n.data().unwrap_or_default()}),
+                            Err(e) => json!({"ok": false, "err": format!("{:?}", e), "data": n.data().unwrap_or_default()}),
+                        },
+                    },
+                    other => json!({"error": format!("first child is not merged text: {:?}", other.map(|n| n.node_name()))}),
+                }
+            }
+            Err(e) => json!({"error": format!("{:?}", e)}),
+        };
+    }
     let (_, doc) = xml_dom::XmlDocument::from_raw("<r/>").unwrap();
     let root = doc.document_element().unwrap();
     macro_rules! run {
